@@ -691,3 +691,87 @@ def rewired_tree(files: Dict[str, str], base: str) -> Dict[str, str]:
     out[f"{base}_starhub.py"] = "def plain_func(x):\n    return x\n\n\ndef shown_func():\n    return 0\n\n\nclass PlainClass:\n    pass\n\n\nPLAIN_CONST = object()\nSHOWN_CONST = object()\n"
     out[f"{base}_star1.py"] = "def far_func():\n    return 'near'\n\n\nFAR_CONST = object()\n"
     return out
+
+
+# --------------------------------------------------------------------------- C18 shape (ii): whole tree, safe mode
+
+def _token_probe(arg: Tuple[Dict[str, str], List[str]]) -> Dict[str, Any]:
+    """Runs in a fork: import every client of the tree and describe the objects its
+    functions return by origin token (module, qualified name) - comparable across
+    processes, unlike identity."""
+    files, clients = arg
+    import importlib
+    import tempfile
+
+    d = tempfile.mkdtemp(prefix="vsimtok", dir=str(C.SCRATCH_ROOT))
+    out: Dict[str, Any] = {}
+    try:
+        for r, text in files.items():
+            p = os.path.join(d, r)
+            os.makedirs(os.path.dirname(p), exist_ok=True)
+            with open(p, "w") as f:
+                f.write(text)
+        sys.path.insert(0, d)
+        sys.dont_write_bytecode = True
+        os.chdir(d)
+
+        def token(o: Any) -> str:
+            mod = getattr(o, "__module__", None)
+            qn = getattr(o, "__qualname__", None)
+            if isinstance(o, type(sys)):
+                return f"module:{o.__name__}"
+            if qn:
+                return f"{mod}:{qn}"
+            return f"value:{type(o).__name__}"
+
+        for rel in clients:
+            try:
+                m = importlib.import_module(rel[:-3].replace("/", "."))
+            except BaseException as e:  # noqa: BLE001
+                out[rel] = f"raised:{type(e).__name__}:{e}"
+                continue
+            toks: List[Any] = []
+            tree = ast.parse(files[rel])
+            for fn in [n.name for n in tree.body if isinstance(n, ast.FunctionDef)]:
+                try:
+                    v = getattr(m, fn)()
+                    toks.append([token(x) for x in v] if isinstance(v, list) else token(v))
+                except BaseException as e:  # noqa: BLE001
+                    toks.append(f"raised:{type(e).__name__}:{e}")
+            out[rel] = toks
+    finally:
+        import shutil
+
+        shutil.rmtree(d, ignore_errors=True)
+    return out
+
+
+def imports_check_whole_tree(case: Dict[str, Any], run: Dict[str, Any], stats: C.Counter) -> List[Dict[str, Any]]:
+    """Libraries and clients were formatted together in safe mode (which keeps the
+    libraries' surface): every client still resolves its names to objects of the
+    same origin."""
+    v: List[Dict[str, Any]] = []
+    if run["outcome"][0] != "ok":
+        stats.inc("observed.imports_run_raised." + str(run["outcome"][1]))
+        return v
+    clients = case["tree_meta"]["clients"]
+    try:
+        before = C.fork_call(_token_probe, ((case["files"], clients),), timeout=120)
+        after = C.fork_call(_token_probe, ((run["tree"], clients),), timeout=120)
+    except C.HarnessError:
+        stats.inc("observed.exec_probe_failed")
+        return v
+    for rel in clients:
+        b, a = before.get(rel), after.get(rel)
+        stats.inc("imports.whole_tree_clients_checked")
+        if isinstance(b, str) or any(isinstance(x, str) and x.startswith("raised:") for x in (b or [])):
+            stats.inc("imports.client_not_executable_before")
+            continue
+        if a != b:
+            detail = f"{rel}: objects reached through its names changed origin after formatting the whole tree in safe mode: before={str(b)[:200]} after={str(a)[:200]}"
+            viol = {"class": "import-rebinds-name-whole-tree", "detail": detail, "props": ["C18"]}
+            key = _known_import_pattern(case["files"][rel], run["tree"].get(rel, ""), str(a))
+            if key:
+                viol["finding_key"] = key
+            v.append(viol)
+    return v
